@@ -782,7 +782,94 @@ def check_reverse_pure(prog: Program, res: Result) -> None:
                 res.ok("R-DERIVE-PURE", inst, fi.loc())
 
 
+def check_descriptor_compare(prog: Program, res: Result) -> None:
+    """R-DESC-CMP: from_graphs decides "same descriptor in two structures" by
+    descriptor equality.  A verdict that is the comparison of the two atom
+    COLLECTIONS (`return set(a.atoms) == set(b.atoms)`) equates different
+    arrangements over one atom set (E / Z, the three square planar ones).  A
+    pre-filter (`if set(..) != set(..): return False`) is not a verdict."""
+    res.rule("R-DESC-CMP", "descriptors of two structures are compared as "
+             "descriptors in from_graphs and the helpers it calls; the "
+             "comparison of their atom sets is never the verdict")
+    K = "StereoCondensedReactionGraph"
+    fi = prog.resolve_method(K, "from_graphs")
+    scopes = [fi]
+    for c in ast.walk(fi.node):
+        if isinstance(c, ast.Call) and isinstance(c.func, ast.Name):
+            h = prog.functions.get(f"{fi.module.name}:{c.func.id}")
+            if h is not None and h not in scopes:
+                scopes.append(h)
+
+    def atom_collections(cmp_):
+        if not (isinstance(cmp_, ast.Compare) and len(cmp_.ops) == 1
+                and isinstance(cmp_.ops[0], ast.Eq)):
+            return False
+        sides = [cmp_.left, cmp_.comparators[0]]
+        return all(isinstance(x, ast.Call) and call_name(x) in (
+            "set", "frozenset", "sorted", "Counter") and len(x.args) == 1
+            and norm(x.args[0]).endswith(".atoms") for x in sides) and \
+            norm(sides[0].args[0]) != norm(sides[1].args[0])
+
+    n = 0
+    for sc in scopes:
+        for node in ast.walk(sc.node):
+            verdict = None
+            if isinstance(node, ast.Return) and node.value is not None and \
+                    atom_collections(node.value) and sc is not fi:
+                verdict = node.value
+            elif isinstance(node, ast.If) and atom_collections(node.test) \
+                    and any(isinstance(c, ast.Call) and isinstance(
+                        c.func, ast.Attribute) and c.func.attr in (
+                        "set_atom_stereo", "set_bond_stereo")
+                        for st in node.body for c in ast.walk(st)):
+                verdict = node.test
+            if verdict is None:
+                continue
+            # descriptor equality itself is the comparison of the atom sets
+            # when a parity is unspecified: a verdict taken under a guard
+            # whose every disjunct is `<x>.parity is None` is that clause
+            from ..core import ancestors
+            guards = []
+            child = node
+            for a in ancestors(node):
+                if isinstance(a, ast.If) and any(child is b for b in a.body):
+                    guards.append(a.test)
+                child = a
+                if a is sc.node:
+                    break
+
+            def wildcard(t):
+                parts = t.values if isinstance(t, ast.BoolOp) and isinstance(
+                    t.op, ast.Or) else [t]
+                return all(re.fullmatch(r"[\w.]+\.parity is None", norm(x))
+                           for x in parts)
+            if any(wildcard(t) for t in guards):
+                res.ok("R-DESC-CMP", f"{sc.short}: atom-set verdict only for "
+                       "an unspecified parity", sc.loc(node))
+                continue
+            if not any(".parity" in norm(t) for t in guards) and \
+                    ".parity" in utext(sc.node):
+                res.unrecognised("R-DESC-CMP", f"{sc.short}: atom-set verdict",
+                                 sc.loc(node), f"`{norm(verdict, 70)}`: the "
+                                 "parities it is taken for are decided by "
+                                 "earlier exits of the function")
+                n += 1
+                continue
+            n += 1
+            res.bad("R-DESC-CMP", f"{sc.short}: {norm(verdict, 70)}",
+                    sc.loc(node), f"{sc.short}: `{norm(verdict, 80)}` is the "
+                    "verdict \"same descriptor\": two different arrangements "
+                    "over one atom set (E and Z of a double bond, the three "
+                    "square planar arrangements) are recorded as unchanged, "
+                    "the reaction graph loses the stereo change",
+                    context=["<decided>"])
+    for sc in scopes:
+        res.ok("R-DESC-CMP", f"{sc.short}: no atom-set verdict", sc.loc()) \
+            if n == 0 else None
+
+
 def run(prog: Program, res: Result, tier: str) -> None:
+    check_descriptor_compare(prog, res)
     check_reverse_total(prog, res)
     check_reverse_pure(prog, res)
     from .common import check_setter_once
